@@ -7,5 +7,11 @@ def handle (fn : String) (args : List Json) : String :=
   | "_checksum" => match args with
     | [a0] => (do let x0 ← Wire.decStr a0; pure (Wire.respondWith Wire.encInt (Gen.me_iban._checksum x0)) : Option String).getD "badargs"
     | _ => "badargs"
+  | "is_valid" => match args with
+    | [a0] => (do let x0 ← Wire.decStr a0; pure (Wire.respondWith Wire.encBool (Gen.me_iban.is_valid x0)) : Option String).getD "badargs"
+    | _ => "badargs"
+  | "validate" => match args with
+    | [a0] => (do let x0 ← Wire.decStr a0; pure (Wire.respondWith Wire.encStr (Gen.me_iban.validate x0)) : Option String).getD "badargs"
+    | _ => "badargs"
   | _ => "nofunc"
 end Driver.D_me_iban
